@@ -587,6 +587,7 @@ func (e *Engine) observe() {
 		if t.blocked && !t.wasBlocked && len(t.rec.Ups) > 0 {
 			// a fetcher blocked while handing its result to a waiter: not a coalesced request
 			t.sendBlocked = true
+			e.hist.Probes["sender-blocked-on-unready-waiter"]++
 		}
 		if t.sendBlocked {
 			if !t.blocked {
